@@ -90,7 +90,7 @@ Contents(T, v) ==
     [] T.k = "REAL" -> RealContents(v)
     [] T.k = "BITS" -> BitsContents(v)
     [] T.k = "OCTETS" -> v
-    [] T.k = "STRING" -> StringOctets(T.st, v)
+    [] T.k = "STRING" -> StringOctets(T.st, CanonTime(T.st, v))     \* DER: X.690 11.7 / 11.8 for the time types
     [] T.k = "OID" -> OidContents(v)
     [] T.k = "RELOID" -> RelOidContents(v)
 
